@@ -52,8 +52,8 @@ WriterRule(a) ==
 \* C11: requested settings are recorded verbatim; rq = [alg, bits, min, max, window, hash_len, ctype, clevel, metadata]
 SettingsRule(a, rq) ==
   IF a.params.alg # rq.alg THEN "C11 SETTINGS: chunking algorithm not recorded as requested"
-  ELSE IF a.params.max # rq.max THEN "C11 SETTINGS: max / fixed chunk size not recorded as requested"
-  ELSE IF rq.alg # 2 /\ (a.params.min # rq.min \/ a.params.window # rq.window \/ a.params.bits # rq.bits) THEN "C11 SETTINGS: min size / window / filter bits not recorded as requested"
+  ELSE IF a.params.max_s # rq.max_s THEN "C11 SETTINGS: max / fixed chunk size not recorded as requested"
+  ELSE IF rq.alg # 2 /\ (a.params.min_s # rq.min_s \/ a.params.window_s # rq.window_s \/ a.params.bits # rq.bits) THEN "C11 SETTINGS: min size / window / filter bits not recorded as requested"
   ELSE IF a.params.hash_len # rq.hash_len THEN "C11 SETTINGS: hash length not recorded as requested"
   ELSE IF a.compression.type # rq.ctype \/ (rq.ctype # 0 /\ a.compression.level # rq.clevel) THEN "C11 SETTINGS: compression not recorded as requested"
   ELSE IF ToSet(a.metadata) # ToSet(rq.metadata) \/ Len(a.metadata) # Cardinality(ToSet(rq.metadata)) THEN "C11 SETTINGS: metadata not recorded as requested"
